@@ -244,15 +244,19 @@ def make_int_schedule(M, k, mode):
         sched = [float(k)] * (M - k) + [float(j) for j in range(k, 0, -1)]
         if getattr(ctx, "mutant", None) == "sched":
             sched[-1] = 2.0
-        if ctx.mode == "sym":
-            ctx.prove(len(seen) == 1 and len(seen[0]) == M, "cumsum called once on M shrinkage terms")
+        observed = ctx.mode == "sym" and len(seen) == 1 and len(seen[0]) == M
+        if observed:
+            # the shrinkage terms were observed as the argument of np.cumsum (cheap: the quadrature is not re-decided here)
             snp = _snp(ctx)
             for i in range(M):
                 from sx.values import Sym, rv
                 ref = (Sym(rv(-1)) / Sym(rv(sched[i]))) if mode == "logt" else -snp.log1p(Sym(rv(1)) / Sym(rv(sched[i])))
                 ctx.prove_eq(seen[0][i], ref, "O6 integer nlive: per-iteration live counts are [n]*(M-n) + [n, n-1, ..., 1]")
-        # the array path with the same schedule gives the same numbers (exact identity by O3); concrete twin compares values
-        if ctx.mode == "conc":
+        elif ctx.mode == "sym":
+            # an implementation that does not go through np.cumsum: compare the outputs of the integer path and of the array path
+            logZ, lw = compute_weights(samples, k, expectation=mode)
+        # the array path with the same schedule gives the same numbers (exact identity by O3)
+        if not observed:
             logZ2, lw2 = compute_weights(samples, np.array(sched), expectation=mode)
             ctx.prove_eq(logZ, logZ2, "O6 integer path = array path (evidence)")
             for i in range(M):
